@@ -55,7 +55,7 @@ fn main() {
                 }
             };
             fs::write(res, serde_json::to_vec(&sum).unwrap()).unwrap();
-            let _ = fs::remove_dir_all(simkit::fsutil::scratch_base().join("f"));
+            let _ = fs::remove_dir_all(simkit::fsutil::scratch_base());
             exit(0);
         }
         "replay" => {
